@@ -158,6 +158,22 @@ func runC10(r *Run) {
 		sendRaw(m + " /remoteDesktopGateway/ HTTP/1.1\r\nHost: x\r\n" + hdr + "\r\n" + body)
 		r.Count("raw:" + m + hdr + body)
 	}
+	// a client that sends back the session cookie it was given (every browser and many clients do), on
+	// every kind of request
+	if ck := c07SessionCookie(addr); ck != "" {
+		for _, m := range []string{"GET", "RDG_OUT_DATA", "RDG_IN_DATA", "POST"} {
+			for _, extra := range []string{"", "Connection: Upgrade\r\nUpgrade: websocket\r\nSec-WebSocket-Version: 13\r\nSec-WebSocket-Key: AAAAAAAAAAAAAAAAAAAAAA==\r\n", "X-Forwarded-For: 192.0.2.9, 10.0.0.1\r\n"} {
+				sendRaw(m + " /remoteDesktopGateway/ HTTP/1.1\r\nHost: x\r\nCookie: " + ck + "\r\nRdg-Connection-Id: {" + randHex(6) + "}\r\n" + extra + "\r\n")
+				r.Count("cookie-replay:" + m + extra)
+			}
+		}
+		// and a second-generation cookie (the one set in answer to a request that carried the first)
+		if ck2 := c07SessionCookie(addr); ck2 != "" {
+			sendRaw("GET /remoteDesktopGateway/ HTTP/1.1\r\nHost: x\r\nCookie: " + ck + "; " + ck2 + "\r\n\r\n")
+		}
+	} else {
+		r.Note("the gateway set no session cookie on a plain request")
+	}
 	// one connection identifier used on both transports, in every order, then everything dropped
 	tunnelAlive := func() bool {
 		w, err := dialWS(addr, "{"+randHex(8)+"}", "")
